@@ -201,6 +201,8 @@ let run (st : string) (lib : sexp) (r : sexp) : string =
   match st with
   | "f64" -> String.concat " " (List.map string_of_z (M.run64 (to_lib lib) (to_req to_z r)))
   | "f32" -> String.concat " " (List.map string_of_z (M.run32 (to_lib lib) (to_req to_z r)))
+  | "a64" -> String.concat " " (List.map string_of_z (M.acc_run64 (to_lib lib) (to_req to_z r)))
+  | "a32" -> String.concat " " (List.map string_of_z (M.acc_run32 (to_lib lib) (to_req to_z r)))
   | "q" -> String.concat " " (List.map string_of_q (M.q_run (to_req to_q r)))
   | "z" -> String.concat " " (List.map string_of_z (M.z_run (to_req to_z r)))
   | "text" -> String.concat " " (List.map string_of_z (M.text_run (to_treq r)))
